@@ -83,7 +83,7 @@ CLAIMED["C08"] = dict(
 
 CLAIMED["C04"] = dict(
     engine="P", technique="model-based property testing over generated method signatures (Hypothesis): reference outlives model cross-validated by rustc, compared with the tool's borrow map and the edge lists emitted by managed backends",
-    text="Generated signatures (up to 4 method lifetimes + impl lifetimes, arbitrary declared bounds, implied bounds from references and definitions, 'static, anonymous inputs, optional and nested borrowing structs): the tool's borrow map must equal, per output lifetime, the set of input slots the outlives closure requires (both inclusions). The closure itself is validated against rustc on sampled signatures (one probe function per ordered lifetime pair). JS, Dart and Kotlin edge lists (per output lifetime) and nanobind keep_alive indices (per argument) must contain the expected inputs; for methods returning an opaque the generated JS is also executed under a stub wasm module and the private edge arrays of the returned object (read through the V8 inspector) must hold every required input object, including opaque fields of by-value struct parameters. Exploration.",
+    text="Generated signatures (up to 4 method lifetimes + impl lifetimes, arbitrary declared bounds, implied bounds from references and definitions, 'static, anonymous inputs, optional and nested borrowing structs): the tool's borrow map must equal, per output lifetime, the set of input slots the outlives closure requires (both inclusions). The closure itself is validated against rustc on sampled signatures (one probe function per ordered lifetime pair). JS, Dart and Kotlin edge lists (per output lifetime) and nanobind keep_alive indices (per argument) must contain the expected inputs; for methods returning an opaque the generated JS is also executed under a stub wasm module and the private edge arrays of the returned object (read through the V8 inspector) must hold every required input object, including opaque fields of by-value struct parameters and of an optional nested struct field (present or absent). Exploration.",
     note="Trusted: rustc as the arbiter of outlives; the signature renderer; the JS/Dart/Kotlin/nanobind edge-list parsers; node's inspector for the executed-JS leg. 'static inputs are don't-care. The definition-site gap (known finding) is excluded by spelling all bounds and probed separately.",
     ref="DESIGN.md §2 C04")
 
